@@ -663,7 +663,110 @@ def ax_le(call):
     return NotImplemented
 
 
+# ------------------------------------------------------------------------------ slice iterators: `s.iter().any(|x| *x == v)`
+
+@axiom("<impl [T]>::iter", doc="slice iterator: remembers which slice it walks (identity as for a pure application)")
+def ax_slice_iter(call):
+    l = tree_leaf(call.args[0])
+    key = call.arg_key(call.args[0])
+    ident = ("term", ("app", "<impl [T]>::iter", key)) if key != TOP else TOP
+    out = {(): ident}
+    if l[0] == "ref":
+        out[(("f", "@slice"),)] = l
+    return call.ret(out)
+
+
+def _closure_is_eq_with_capture(prog, clos_tree):
+    """the closure's body is a single equality call between its argument and one captured value -> that captured leaf tree"""
+    l = tree_leaf(clos_tree)
+    if l[0] != "closure":
+        return None
+    body = prog.bodies.get(l[1])
+    if body is None:
+        return None
+    from .mir import callee_path as _cp
+    calls = [(_cp(t) or "") for _, t in body.calls()]
+    if len(calls) != 1 or not calls[0].split("::")[-1] == "eq":
+        return None
+    caps = [p for p in clos_tree if p and p[0][0] == "f" and len(p) == 1]
+    if len(caps) != 1:
+        return None
+    return clos_tree[caps[0]]
+
+
+def _ax_slice_any(call):
+    it = call.deref(call.args[0])
+    sl = it.get((("f", "@slice"),))
+    if not sl or sl[0] != "ref":
+        return NotImplemented
+    n = call.interp.len_of(call.st, sl)
+    if n == ("int", 0) or (n[0] == "term" and call.interp.decide(call.st, ("eq", ("int", 0), n)) is True):
+        return call.ret_leaf(("int", 0))
+    cap = _closure_is_eq_with_capture(call.interp.prog, call.args[1])
+    if cap is not None and n[0] == "int" and 0 < n[1] <= 8:
+        base = call.st.mem.get(sl[1], {}).get((("$base0",),))
+        if base and base[0] == "ref":
+            from .interp import variant_at
+            needle = variant_at(call.deref(leaf_tree(cap))) if cap[0] == "ref" else None
+            elems = [variant_at(call.st.read_tree(base[1], base[2] + (("f", "#%d" % i),))) for i in range(n[1])]
+            if needle and all(elems):
+                return call.ret_leaf(("int", 1 if needle in elems else 0))
+    return NotImplemented
+
+
+AXIOMS["<Iter<'a, T> as Iterator>::any"] = _ax_slice_any
+AXIOM_DOC["<Iter<'a, T> as Iterator>::any"] = "false over an empty slice; membership when the predicate is equality with a captured value and the elements are known"
+
+
+# ------------------------------------------------------------------------------ by-value iteration over a fixed array
+
+@axiom("<impl IntoIterator for [T; N]>::into_iter", doc="array by-value iterator: the elements in order")
+def ax_array_into_iter(call):
+    arr = call.args[0]
+    n = 0
+    while any(p and p[0] == ("f", "#%d" % n) for p in arr):
+        n += 1
+    ga = call.callee.get("resolved_args") or call.callee.get("args") or []
+    try:
+        decl = int(ga[-1])
+    except Exception:
+        decl = None
+    if decl is None or decl != n or n > 4:
+        return NotImplemented      # longer arrays: generic treatment (the loop would exceed the unrolling budget)
+    out = {(): TOP, (("f", "@idx"),): ("int", 0), (("f", "@n"),): ("int", n)}
+    for pth, l in arr.items():
+        if pth and pth[0][0] == "f" and pth[0][1].startswith("#"):
+            out[pth] = l
+    return call.ret(out)
+
+
+@axiom("<IntoIter<T, N> as Iterator>::next", doc="next element of an array by-value iterator, None after the last")
+def ax_array_iter_next(call):
+    addr = call.deref_addr(call.args[0])
+    it = call.deref(call.args[0])
+    i, n = it.get((("f", "@idx"),)), it.get((("f", "@n"),))
+    if addr is None or not i or not n or i[0] != "int" or n[0] != "int":
+        return NotImplemented
+    if i[1] >= n[1]:
+        return call.ret(mk_variant("None"))
+    elem = subtree(it, (("f", "#%d" % i[1]),))
+    call.st.write_leaf(addr[0], addr[1] + (("f", "@idx"),), ("int", i[1] + 1))
+    return call.ret(mk_variant("Some", elem))
+
+
 # ------------------------------------------------------------------------------ dyn Fn
+
+def _ctor_variant(prog, def_id):
+    """variant name if def_id is the constructor of a tuple variant of a known enum ('' for a tuple struct), else None"""
+    for a in prog.raw["adts"]:
+        aid = a["id"]
+        if def_id.startswith(aid + "::"):
+            rest = def_id[len(aid) + 2:].split("::")
+            for v in a.get("variants", []):
+                if rest and rest[0] == v["name"]:
+                    return v["name"] if a.get("is_enum") else ""
+    return None
+
 
 @axiom("Fn::call", "FnMut::call_mut", "FnOnce::call_once",
        doc="calling a known closure runs its body; an unknown callee yields an atom keyed by its arguments")
@@ -681,7 +784,7 @@ def ax_fn_call(call):
         n += 1
         if n > 8:
             break
-    if l[0] == "closure":
+    if l[0] in ("closure", "fn"):
         r = call.interp.call_closure(call, clos, args, None)
         if r is not NotImplemented:
             # plain call: result goes to dest, continue at target
@@ -689,6 +792,12 @@ def ax_fn_call(call):
             fr.dest = call.dest
             fr.target = call.term["target"]
             return r
+    if l[0] == "fn":
+        # a tuple-variant / tuple-struct constructor used as a function value: builds the aggregate
+        v = _ctor_variant(call.interp.prog, l[1])
+        if v is not None:
+            return call.ret(mk_variant(v, *args) if v != "" else dict(
+                [((), TOP)] + [((("f", str(i)),) + rp, lf) for i, t in enumerate(args) for rp, lf in t.items()]))
     keys = tuple(call.arg_key(a) for a in args)
     who = call.arg_key(call.args[0])
     return call.ret_leaf(("term", ("app", "Fn::call", who) + keys))
